@@ -66,6 +66,9 @@ Definition sp_step (s : aspec) (o : op) : aspec * out :=
       if sp_valid s i then (s, OutSlice (sp_block_off s i) (sp_bs s)) else (s, OutErr EInvalid)
   | OWrite i _ =>
       if sp_valid s i then (s, OutOk) else (s, OutErr EInvalid)
+  | OPoke i k _ =>
+      if sp_valid s i then (s, if (k <? 0) || (sp_bs s <=? k) then OutPanic else OutOk)
+      else (s, OutErr EInvalid)
   | OReopen => (s, OutOk)
   | OAvail => (s, OutN (sp_count s - as_card (sp_alloc s)))
   | OCount => (s, OutN (sp_count s))
